@@ -8,7 +8,7 @@ import ExaModel.Driver.Util
    text components (what configuration/flow/parser.py builds, in text order):
      t4:<ty>:<addr>:<len>  t6:<ty>:<addr>:<len>:<off>  o:<ty>:<flags>:<value>    (flags = IOperation.operations, value may be negative)
    raw components (ExaBGP's decoded objects):
-     p4:<ty>:<len>:<hex>   p6:<ty>:<len>:<off>:<hex>   op:<ty>:<operations>/<value>,…   (operations = byte & 0x4F)
+     p4:<ty>:<len>:<hex>   p6:<ty>:<len>:<off>:<hex>   op:<ty>:<operations>/<value>,…   (operations = byte masked to its meaning, AND cleared on the first)
 
    flow enc <v6> <vpn> <rd hex|-> <comp>*       -> ok <hex> wf=<0|1>
    flow dec <v6> <vpn> <hex>                    -> ok <rd|-> <rest> <comp>*     | err <code>
@@ -78,10 +78,14 @@ def showComp : Comp → String
 
 def showRule (r : Rule) : String := joinWith " " (r.map showComp)
 
-def showRawComp : RawComp → String
+def showStored (numeric : Bool) : Bool → List RawTerm → List String
+  | _, [] => []
+  | first, t :: ts => s!"{exaStoredOp numeric first t.op}/{rdN t.val}" :: showStored numeric false ts
+
+def showRawComp (v6 : Bool) : RawComp → String
   | .prefix4 ty len bs => s!"p4:{ty}:{len}:{toHex bs}"
   | .prefix6 ty len off bs => s!"p6:{ty}:{len}:{off}:{toHex bs}"
-  | .ops ty ts => s!"op:{ty}:" ++ ",".intercalate (ts.map (fun t => s!"{t.op % 16 + t.op / 64 % 2 * 64}/{rdN t.val}"))
+  | .ops ty ts => s!"op:{ty}:" ++ ",".intercalate (showStored (kindOf v6 ty == some .numeric) true ts)
 
 def showErr : Err → String
   | .fuel => "fuel" | .empty => "empty" | .lengthShort => "length-short" | .rdShort => "rd-short"
@@ -153,7 +157,7 @@ def flowLine (st : Unit) (ws : List String) : Unit × String :=
       | .raise => (st, "raise")
       | .invalid rest => (st, s!"invalid {toHex rest}")
       | .ok rd cs rest =>
-        (st, s!"ok {match rd with | some rd => toHex rd | none => "-"} {toHex rest} {joinWith " " (cs.map showRawComp)}")
+        (st, s!"ok {match rd with | some rd => toHex rd | none => "-"} {toHex rest} {joinWith " " (cs.map (showRawComp v6))}")
     | _, _, _ => bad
   | "torule" :: v6 :: cs =>
     match bool? v6, cs.mapM tcomp? with
